@@ -66,6 +66,10 @@ def run(ctx, chk):
         if not ent:
             chk.ob("R19.1", init, "every path starts by entering the critical section", False, loc=init.loc(p.end_iid), path=p,
                    key="R19.1 sodium_init no-enter")
+            if not steps and not flag:
+                nagain += 1
+            else:
+                nfirst += 1
             continue
         locked_ok = p.facts.zeroness(ent[0].res) == "Z"
         if not locked_ok:
